@@ -427,6 +427,47 @@ Definition parse_and_verify (A : AirP) (pol : Policy) (bs : bytes) (orc : Oracle
   | Ok p => match verify A pol p orc k kf with VOk _ => O_Ok | VErr e => O_VerifyErr e | VPanic w => O_Panic (Some w) end
   end.
 
+(* ============================================================ the same functions BEFORE the C06 repairs (/repo 07b6d57) *)
+(* kept to state, by computation, that each repaired check is necessary: see Proofs/UntrustedRefuted.v *)
+Definition Queries_parse_unrepaired (F : FieldP) (deg dl : nat) (q : Queries) (domain_size num_queries values_per_query : Z)
+  : Result QShape :=
+  assert_ (is_pow2 domain_size) (
+  assert_ (num_queries >? 0) (                                            (* assert!(num_queries > 0, ...) *)
+  Queries_parse F deg dl q domain_size num_queries values_per_query)).
+
+(* no check of the frame size byte; aux_trace_width - (lagrange_kernel_frame.is_some() as usize) unchecked *)
+Definition OodFrame_parse_unrepaired (F : FieldP) (deg : nat) (f : OodFrame) (main_w aux_w num_evals : Z) : Result OodShape :=
+  assert_ (main_w >? 0) (
+  assert_ (num_evals >? 0) (
+  lag <-- parse_all (n <- read_u8 ;;
+                     if n >? 0 then (l <- read_many (read_elem F deg) n ;; ret (Some (llen l))) else ret None)
+                    (ood_lagrange f) ;;;
+  let dec := match lag with Some _ => 1 | None => 0 end in
+  assert_ (dec <=? aux_w) (                                               (* subtraction overflow *)
+  let aux_w := aux_w - dec in
+  cur <-- parse_all (fs <- read_u8 ;;
+                     _ <- lift (assert_ ((main_w + aux_w) * fs <=? usize_max) (Ok tt)) ;;
+                     trace <- read_many (read_elem F deg) ((main_w + aux_w) * fs) ;;
+                     ret (llen trace / 2))
+                    (ood_trace_states f) ;;;
+  evals <-- parse_all (read_many (read_elem F deg) num_evals) (ood_evaluations f) ;;;
+  Ok (mkOS cur lag (llen evals))))).
+
+Fixpoint Fri_layers_loop_unrepaired (F : FieldP) (deg dl : nat) (ls : list FriProofLayer) (domain_size folding_factor : Z)
+  : Result (list LShape) :=
+  match ls with
+  | [] => Ok []
+  | l :: rest =>
+      let domain_size := domain_size / folding_factor in                  (* no `domain_size < folding_factor` check *)
+      s <-- FriLayer_parse F deg dl l domain_size folding_factor ;;;
+      r <-- Fri_layers_loop_unrepaired F deg dl rest domain_size folding_factor ;;;
+      Ok (s :: r)
+  end.
+
+Definition draw_integers_unrepaired (num_values domain_size : Z) : Result Z :=
+  assert_ (is_pow2 domain_size) (
+  assert_ (num_values <? domain_size) (Ok num_values)).                   (* assert!(num_values < domain_size, ...) *)
+
 (* =================================================================================== allocation accounting *)
 (* Capacity requested from the allocator while Proof::from_bytes runs, in bytes, following read_Proof step by step.
    read_vec(n) copies n bytes AFTER check_eor (so only when they are there); read_many(n) reserves at most
